@@ -172,6 +172,59 @@ def collect():
     return out
 
 
+PLACEHOLDER = "QQNAMEQQ"
+
+
+def name_regex_template():
+    """the f-string compiled as NAME_REGEX in LangServer.get_all_references, with the name replaced by a placeholder;
+    returns (pattern text, flags) or (None, 0) when the source shape is not recognised"""
+    with open(os.path.join(REPO, "fortls", "langserver.py")) as fh:
+        tree = ast.parse(fh.read())
+    for node in ast.walk(tree):
+        if isinstance(node, ast.Assign) and any(isinstance(t, ast.Name) and t.id == "NAME_REGEX" for t in node.targets):
+            c = node.value
+            if not (isinstance(c, ast.Call) and isinstance(c.func, ast.Attribute) and c.func.attr == "compile" and c.args
+                    and isinstance(c.args[0], ast.JoinedStr)):
+                return None, 0
+            parts = []
+            for v in c.args[0].values:
+                if isinstance(v, ast.Constant):
+                    parts.append(v.value)
+                elif isinstance(v, ast.FormattedValue):
+                    e = v.value
+                    if isinstance(e, ast.Name) and e.id == "def_name":
+                        parts.append(PLACEHOLDER)       # the raw name: regex metacharacters in it would be interpreted
+                        parts.append("(?#raw)")
+                    elif (isinstance(e, ast.Call) and isinstance(e.func, ast.Attribute) and e.func.attr == "escape" and len(e.args) == 1
+                          and isinstance(e.args[0], ast.Name) and e.args[0].id == "def_name"):
+                        parts.append(PLACEHOLDER)
+                    else:
+                        return None, 0
+                else:
+                    return None, 0
+            flags = 0
+            for a in c.args[1:]:
+                if isinstance(a, ast.Attribute) and a.attr in ("I", "IGNORECASE"):
+                    flags |= re.I
+            return "".join(parts), flags
+    return None, 0
+
+
+def render_name_regex():
+    pat, flags = name_regex_template()
+    if pat is None or "(?#raw)" in pat:
+        body = "RUnknown"
+        ci = False
+    else:
+        body, ci = translate_pattern(pat, flags | re.U)
+        lits = cat(["(Lit %d)" % ord(ch) for ch in PLACEHOLDER])
+        if body.count(lits) != 1:
+            body = "RUnknown"
+        else:
+            body = body.replace(lits, "(Lits nm)")
+    return "Definition name_re (nm : str) : re := %s.\nDefinition name_ci : bool := %s.\n" % (body, "true" if ci else "false")
+
+
 def render(pats):
     L = ["(* GENERATED by harness/translators/regex.py from fortls/regex_patterns.py (via re._parser) -- do not edit *)",
          "From Coq Require Import String.", "From FV Require Import Base.Str Base.Regex.", "Local Open Scope N_scope."]
@@ -183,6 +236,7 @@ def render(pats):
     L.append("Definition all_patterns : list (string * pat) := [")
     L.append(";\n".join('  ("%s"%%string, P_%s)' % (n, n) for n in names))
     L.append("].")
+    L.append(render_name_regex())
     return "\n".join(L) + "\n"
 
 
